@@ -53,6 +53,7 @@ func genSchedSpec(p *schedParams, c *Corpus, run int, cold bool) *RunSpec {
 	}
 	spec := &RunSpec{Property: p.prop, Engine: "sched", VerifSeed: p.verifSeed, Run: run, RunSeed: fmt.Sprintf("%#x", seed), Cfg: cfg,
 		Fresh: cold || ro.Chance(7, 10), Cold: cold, Deep: deepBuild, GoMaxProcs: runtime.GOMAXPROCS(0)}
+	spec.RefAfter = !cold && root.Split("ref-after").Chance(1, 2)
 	// documents
 	var docs [][]byte
 	herd := rd.Chance(1, 2)
